@@ -10,7 +10,7 @@ COMMON_ASSUMPTIONS = [
 
 PROPS = {
     "C02": dict(
-        verus_units=["tree"],
+        verus_units=["core"],
         explanation="Verus proves, on the function text extracted from canister/src/blocktree.rs at run time, that "
                     "main_chain_by_difficulty(_inner) / main_chain_length_by_difficulty(_inner) return exactly best_path/best_key, "
                     "and lemma_best_is_max proves best_path is the maximum over ALL root-to-leaf branches by (sum difficulty, length) "
